@@ -56,7 +56,9 @@ func c03(c *q.Ctx) {
 	c.WhoCalls("XModel.GetUncommited", map[string]string{xm + "(*XModel).verifyInputs": "version check of a block transaction"}, "the in-batch cache is only consulted by the version check")
 	up := c.Fn(xm + "(*XModel).updateExtUtxo")
 	if up != nil {
-		keepTx := func(g q.Cond) bool { return strings.Contains(g.Canon, "p1.") && !strings.Contains(g.Canon, "len(p1.TxOutputsExt)") }
+		keepTx := func(g q.Cond) bool {
+			return strings.Contains(g.Canon, "p1.") && !strings.Contains(g.Canon, "len(p1.TxOutputsExt)")
+		}
 		c.Effect(up, q.Eff{Spec: "Map.Store", Arg: 0, Glob: "xmodel.makeRawKey(p1.TxOutputsExt[].Bucket,p1.TxOutputsExt[].Key)", Req: []q.Cond{{Canon: "(\"$transient\" == p1.TxOutputsExt[].Bucket)", Sense: false}, blockTx}, Exact: true, Keep: keepTx, Why: "every block write - puts and deletes alike - is visible to the later transactions of the block", Rule: "K2"})
 		c.ArgIs(up, "Map.Store", 2, "xmodel.MakeVersion(p1.Txid,#i)", 1, "the cached version is the one written to the batch")
 	}
@@ -124,7 +126,7 @@ func c03(c *q.Ctx) {
 		_ = edge
 		c.Effect(su, q.Eff{Spec: "append", Arg: 0, Glob: "newmap<TxGraph>[newmap<map[string]*Transaction>[].TxInputs[].RefTxid]", Req: []q.Cond{{Canon: "has(newmap<map[string]*Transaction>,newmap<map[string]*Transaction>[].TxInputs[].RefTxid)", Sense: true}}, Exact: true, Keep: keep, Why: "a pending transaction is a child of every pending transaction one of its token inputs refers to, with no other condition", Rule: "K4"})
 		c.Effect(su, q.Eff{Spec: "append", Arg: 0, Glob: "newmap<TxGraph>[newmap<map[string]*Transaction>[].TxInputsExt[].RefTxid]", Req: []q.Cond{{Canon: "has(newmap<map[string]*Transaction>,newmap<map[string]*Transaction>[].TxInputsExt[].RefTxid)", Sense: true}}, Exact: true, Keep: keep, Why: "and of every pending transaction one of its key inputs refers to", Rule: "K4"})
-			c.StaysInLoop(su, q.Cond{Canon: "has(newmap<map[string]*Transaction>,newmap<map[string]*Transaction>[].TxInputs[].RefTxid)", Sense: false}, q.Cond{Canon: "(#i < len(newmap<map[string]*Transaction>[].TxInputs))"}, "an input that refers to a confirmed transaction must not hide the later inputs")
+		c.StaysInLoop(su, q.Cond{Canon: "has(newmap<map[string]*Transaction>,newmap<map[string]*Transaction>[].TxInputs[].RefTxid)", Sense: false}, q.Cond{Canon: "(#i < len(newmap<map[string]*Transaction>[].TxInputs))"}, "an input that refers to a confirmed transaction must not hide the later inputs")
 		c.StaysInLoop(su, q.Cond{Canon: "has(newmap<map[string]*Transaction>,newmap<map[string]*Transaction>[].TxInputsExt[].RefTxid)", Sense: false}, q.Cond{Canon: "(#i < len(newmap<map[string]*Transaction>[].TxInputsExt))"}, "a key input that refers to a confirmed transaction must not hide the later inputs")
 	}
 }
